@@ -367,6 +367,8 @@ func (m *SrvMonitor) Step(trx int64, frame []byte, obs Obs, op string) {
 					if g.ack && g.id != id && !m.bad[g.id] {
 						m.fail("C07", "reserved-shorter-than-advertised", "an address was offered/acknowledged to another client before the lease time advertised to its holder had elapsed",
 							fmt.Sprintf("%s to %s at %d; %s was acknowledged it at %d for %ds", rp.Yiaddr, id, rp.At, g.id, g.sent, g.ttl/1e9))
+						m.fail("C18", "not-in-effect:lease_duration", "a configured value is not in effect: lease_duration (the address of a client was given to another one before the configured lease time, which its ACK announced, had elapsed)",
+							fmt.Sprintf("%s to %s at %d; %s was acknowledged it at %d for %ds", rp.Yiaddr, id, rp.At, g.id, g.sent, g.ttl/1e9))
 					}
 				}
 			}
@@ -399,7 +401,18 @@ func (m *SrvMonitor) Step(trx int64, frame []byte, obs Obs, op string) {
 			}
 			// ---- C08: never pick an address a foreign host answers ARP for, for a client with no binding
 			if foreign(a) && !isSt {
-				if sure, maybe := m.grantOf(id, trx); sure == nil && maybe == nil {
+				// a hardware address that has used several identities (outside the reading's hypothesis "one client, one identity"):
+				// the server keys it on its hardware identity while that one holds a binding (getDuid), so a grant of this very
+				// address made to this hardware address under another of its identities is the binding the client already holds
+				heldUnderOtherID := false
+				if !consistent {
+					for i := range m.grants {
+						if g := &m.grants[i]; g.chadr == macs && g.addr == a && trx <= g.at+g.ttl+margin {
+							heldUnderOtherID = true
+						}
+					}
+				}
+				if sure, maybe := m.grantOf(id, trx); sure == nil && maybe == nil && !heldUnderOtherID {
 					m.fail("C08", "conflict-handed-out", "an address for which a foreign host answers ARP was offered/acknowledged to a client without binding",
 						fmt.Sprintf("yiaddr=%s", rp.Yiaddr))
 				}
